@@ -325,7 +325,7 @@ def showStore (m : Store) : String :=
 def showSRes (r : SRes UInt16 UInt64) : String :=
   s!"{showSOut r.out} calls={showSTrace r.tr} store={showStore r.st}"
 
-def sstepLineK (KC : Codec UInt16) (m : Store) (toks : List String) : Store × String :=
+def sstepLineK (KC : Codec UInt16) (VC : Codec UInt64) (m : Store) (toks : List String) : Store × String :=
   match toks with
   | ["rawset", k, v] =>
     match unhex k, unhex v with
@@ -363,9 +363,9 @@ def sstepLineK (KC : Codec UInt16) (m : Store) (toks : List String) : Store × S
     | none => (m, "bad-op")
   | _ =>
     match parseSOp toks with
-    | some (op, F) => let r := sstep KC codec64 m op F; (r.st, showSRes r)
+    | some (op, F) => let r := sstep KC VC m op F; (r.st, showSRes r)
     | none => (m, "bad-op")
 
-def sstepLine (m : Store) (toks : List String) : Store × String := sstepLineK codec16 m toks
+def sstepLine (m : Store) (toks : List String) : Store × String := sstepLineK codec16 codec64 m toks
 
 end Hive.Typed
